@@ -30,7 +30,9 @@ from harness.common import guarded
 
 RULE = (
     "cases from one SplitMix64 stream, eight kinds: diag (batch 1-8 or un-batched rank-1 parameters, dim 1-6, means "
-    "in [-3,3] / large / 0, log-stds in [-20,2] weighted to [-3,1] with both extremes, shared or per-sample log_std, "
+    "in [-3,3] / large / 0, log-stds in [-20,2] weighted to [-3,1] with both extremes plus legal values beyond that range "
+    "(2.5, 3, 5, 8, -21, -25, -30; mean 0 or action = mean when the std is below float32 resolution), shared or "
+    "per-sample log_std, "
     "actions = mean + std*z, arbitrary, or the mean), squashed (same parameters; actions tanh(g), +-(1-1e-7), "
     "+-0.99999994, exactly +-1, 0; pre-squash values up to |g|=12 so that samples saturate), cat (2-8 logits per row, "
     "uniform / peaked +-40 / ties / equal), multicat (1-4 blocks of 1-5), bern (1-6 logits incl. 0 and +-40), gsde "
@@ -114,8 +116,15 @@ def g_mean(rng):
     return f32((rng.random() - 0.5) * 6)
 
 
-def g_logstd(rng, lo=-20.0):
-    k = rng.weighted([("typ", 7), ("lo", 1), ("hi", 1), ("zero", 1), ("wide", 2)])
+# legal log-stds outside the range policies usually keep them in (SAC clips its actor's output to [-20, 2], the
+# distribution classes themselves accept any real): exp(-30) = 9.4e-14 and exp(8)^2 = 8.9e6 are ordinary float32 numbers
+LOGSTD_BEYOND = [2.5, 3.0, 5.0, 8.0, -21.0, -25.0, -30.0]
+
+
+def g_logstd(rng, lo=-20.0, beyond=False):
+    k = rng.weighted([("typ", 7), ("lo", 1), ("hi", 1), ("zero", 1), ("wide", 2), ("beyond", 3 if beyond else 0)])
+    if k == "beyond":
+        return float(rng.choice(LOGSTD_BEYOND))
     if k == "lo":
         return lo
     if k == "hi":
@@ -160,7 +169,7 @@ def gen_diag(rng, squashed=False):
     floor = squashed and rng.chance(0.7)
 
     def one_ls():
-        s = g_logstd(rng, lo)
+        s = g_logstd(rng, lo, beyond=True)
         return max(s, f32(-5.0 + rng.random())) if floor else s
 
     if shared:
@@ -173,6 +182,9 @@ def gen_diag(rng, squashed=False):
         row = []
         for d in range(D):
             m, s = mean[b][d], math.exp(log_std[b][d])
+            if s < 4 * EPS32 * abs(m) and rng.chance(0.5):
+                # std below the float32 resolution around the mean: mean + std*z is only representable at mean 0
+                mean[b][d] = m = 0.0
             k = rng.weighted([("z", 6), ("arb", 2), ("mean", 1), ("far", 1)])
             if k == "z":
                 g = m + s * (rng.random() - 0.5) * 8
@@ -298,8 +310,16 @@ def gen_gof(rng, k=None):
     k = k or rng.choice(GOF_DISTS)
     if k == "diag" or k == "squashed":
         D = rng.randint(1, 3)
-        return {"kind": "gof", "dist": k, "mean": [f32((rng.random() - 0.5) * 3) for _ in range(D)],
-                "log_std": [f32(-2 + rng.random() * 2.5) for _ in range(D)], "tseed": rng.randint(0, 2**31 - 1)}
+        ls = [f32(-2 + rng.random() * 2.5) for _ in range(D)]
+        mean = [f32((rng.random() - 0.5) * 3) for _ in range(D)]
+        if k == "diag":
+            # empirical sample std at legal extremes too (tiny stds at mean 0, where float32 resolves them)
+            for d in range(D):
+                if rng.chance(0.4):
+                    ls[d] = float(rng.choice(LOGSTD_BEYOND))
+                    if ls[d] < 0:
+                        mean[d] = 0.0
+        return {"kind": "gof", "dist": k, "mean": mean, "log_std": ls, "tseed": rng.randint(0, 2**31 - 1)}
     if k == "cat":
         r, _ = g_logits(rng, rng.randint(2, 6))
         return {"kind": "gof", "dist": k, "logits": r, "tseed": rng.randint(0, 2**31 - 1)}
@@ -528,6 +548,13 @@ def run_diag(ctx, case):
     if not finite(a_fp):
         V(rep, "sample outside the support (non-finite)", case, "diag", "sample", "support")
         return None
+    if z is not None:
+        # the sampler's scale: sample = mean + z * exp(log_std) for the observed standard-normal draw z
+        exp_s = mean + z * sig
+        if np.any(np.abs(a_fp - exp_s) > 8 * EPS32 * (np.abs(mean) + np.abs(z) * sig) + 1e-30):
+            V(rep, "sample differs from mean + z * exp(log_std) for the standard-normal draw z it consumed", case, "diag",
+              "sample", "sample_scale", {"impl": a_fp, "closed_form": exp_s})
+            return None
     t2, sc2 = o_normal_terms(mean, sig, a_fp)
     for b in range(B):
         if not Tol.ok(lp_fp[b], lp_again[b], sc2.sum(axis=1)[b], k=0.1) or not Tol.ok(lp_fp[b], t2.sum(axis=1)[b], sc2.sum(axis=1)[b]):
@@ -699,6 +726,12 @@ def run_squashed(ctx, case):
     if not finite(a_fp) or np.max(np.abs(a_fp)) > 1.0:
         V(rep, "sample outside [-1, 1]", case, "squashed", "sample", "support")
         return None
+    if z is not None:
+        exp_g = mean + z * sig
+        if np.any(np.abs(g_fp - exp_g) > 8 * EPS32 * (np.abs(mean) + np.abs(z) * sig) + 1e-30):
+            V(rep, "pre-squash sample differs from mean + z * exp(log_std) for the standard-normal draw z it consumed", case,
+              "squashed", "sample", "sample_scale", {"impl": g_fp, "closed_form": exp_g})
+            return None
     if np.max(np.abs(a_fp - np.tanh(g_fp))) > 4 * EPS32:
         V(rep, "returned action is not tanh of the cached gaussian action", case, "squashed", "sample", "cache")
         return None
